@@ -4,6 +4,8 @@ import (
 	"fmt"
 	"os"
 	"runtime/pprof"
+	"strings"
+	"syscall"
 	"time"
 
 	"github.com/gnolang/gno/tm2/pkg/bptree"
@@ -24,12 +26,20 @@ type scenRow struct {
 // runScenarios explores every scenario and aggregates.
 func runScenarios(sink Sink, scs []*Scenario, hook Hook) (rows []scenRow, states, trans, ranges, underfull int64, exhaustive bool) {
 	exhaustive = true
+	only := os.Getenv("VERIF_ONLY")
 	for _, sc := range scs {
+		if only != "" && !strings.Contains(sc.Name, only) {
+			continue
+		}
 		if sink.Expired() {
 			exhaustive = false
 			break
 		}
+		c0 := CPUSeconds()
 		st := Explore(sink, sc, hook)
+		if os.Getenv("VERIF_VERBOSE") != "" {
+			fmt.Printf("  %-44s depth=%d states=%d transitions=%d cpu=%.1fs\n", sc.Name, st.DepthDone, st.States, st.Transitions, CPUSeconds()-c0)
+		}
 		rows = append(rows, scenRow{sc.Name, st.DepthDone, st.States, st.Transitions, st.Ranges, len(sc.Keys), st.Exhaustive})
 		states += st.States
 		trans += st.Transitions
@@ -80,6 +90,13 @@ func DumpPrefills() {
 	}
 }
 
+// CPUSeconds is the user+system CPU time consumed by this process so far.
+func CPUSeconds() float64 {
+	var ru syscall.Rusage
+	syscall.Getrusage(syscall.RUSAGE_SELF, &ru)
+	return float64(ru.Utime.Sec+ru.Stime.Sec) + float64(ru.Utime.Usec+ru.Stime.Usec)/1e6
+}
+
 // StartProfile writes a CPU profile when VERIF_PPROF names a file (developer aid).
 func StartProfile() func() {
 	p := os.Getenv("VERIF_PPROF")
@@ -104,14 +121,14 @@ func MainC23() {
 	}
 	r := vk.New("model_checking")
 	stopProf := StartProfile()
-	r.SetBudget(150*time.Second, 28*time.Minute)
+	r.SetBudget(300*time.Second, 28*time.Minute)
 	pb := Params()
 	if pb.B != 4 || pb.Depth != 2 {
 		r.HarnessError("c23 parent must be built with the B=4 overlay, got B=%d depth=%d", pb.B, pb.Depth)
 	}
 	hitA := false
-	aBudget := 55 * time.Second
-	bBudget := 40 * time.Second
+	aBudget := 150 * time.Second // nominal (idle 16 cores): ~25 s; the caps only matter on an overloaded machine
+	bBudget := 120 * time.Second
 	if r.Thorough() {
 		aBudget, bBudget = 14*time.Minute, 10*time.Minute
 	}
@@ -126,8 +143,13 @@ func MainC23() {
 	stopProf()
 	covB := RunChild(r, "c23", bBudget)
 	statesB, transB := CovInt(covB, "states"), CovInt(covB, "transitions")
+	if ex, _ := covB["exhaustive_to_depth"].(bool); !ex {
+		exA = false
+	}
 
-	r.Sample(map[string]any{"scale": "A (B=4)", "example_scenario": rows[len(rows)-1]})
+	if len(rows) > 0 {
+		r.Sample(map[string]any{"scale": "A (B=4)", "example_scenario": rows[len(rows)-1]})
+	}
 	r.Assumptions = []string{
 		"scale A is the working-tree code with const.go regex-scaled to B=4/miniMerkleDepth=2 (overlay subst); scale B is the unscaled B=32 code in a second binary built from the same tree",
 		"states are merged only when model state AND implementation structure agree (working-tree shape with record identities/dirty marks, record-identity shape of every retained version, session flags)",
@@ -158,7 +180,9 @@ func ChildC23(sink Sink) map[string]any {
 		return map[string]any{}
 	}
 	rows, states, trans, ranges, underfull, ex := runScenarios(sink, scs, nil)
-	sink.Sample(map[string]any{"scale": "B (B=32)", "example_scenario": rows[len(rows)-1]})
+	if len(rows) > 0 {
+		sink.Sample(map[string]any{"scale": "B (B=32)", "example_scenario": rows[len(rows)-1]})
+	}
 	return map[string]any{"B": pb.B, "states": states, "transitions": trans, "range_iterators": ranges, "underfull_nodes_seen": underfull,
 		"exhaustive_to_depth": ex, "scenarios": rows}
 }
